@@ -350,7 +350,10 @@ impl RtpsReaderProxy {
                     RtpsMessageWrite::from_submessages(&[&gap_submessage], guid_prefix);
                 message_writer.write_message(rtps_message.buffer(), self.unicast_locator_list());
 
-                self.set_highest_sent_seq_num(next_unsent_change_seq_num);
+                // only the hole has been announced: the change itself is sent by the next iteration
+                // (without `continue` the common update below marks it as sent as well)
+                self.set_highest_sent_seq_num(gap_end_sequence_number);
+                continue;
             } else if let Some(cache_change) = changes.iter().find(|cc| {
                 cc.sequence_number == next_unsent_change_seq_num
                     && next_unsent_change_seq_num > self.first_relevant_sample_seq_num()
